@@ -6,6 +6,7 @@ import (
 	"strings"
 
 	"grits/parser"
+	"grits/zverif/gen"
 	"grits/zverif/harness"
 	"grits/zverif/ref"
 	"grits/zverif/vfuel"
@@ -157,6 +158,36 @@ func enumSpaces(c *harness.Ctx, forGrammar bool) []textSpace {
 		}
 	}
 	sp = append(sp, textSpace{"corpus-derived", len(derived), func(i int) string { return derived[i] }})
+	// type-definition environments: all alias/recursion graphs over three names and all pairs of
+	// definitions with depth-1 bodies (left- and right-recursive binary types, shifts, choices)
+	ab := gen.EnvSpace{Names: []string{"A", "B", "C"}, Bodies: aliasBodies(), N: 3}
+	sp = append(sp, textSpace{"alias-envs", ab.Count(), func(i int) string { return ab.At(i).String() }})
+	p1 := gen.Annotated(gen.Types(1, gen.TypeOpts{Names: []string{"A", "B"}, Labels: []string{"l", "r"}, Shifts: gen.RepresentativeShifts[:4]}), []ref.AnnTy{{}, {Ann: ref.MLin}})
+	e2 := gen.EnvSpace{Names: []string{"A", "B"}, Bodies: p1, N: 2}
+	sp = append(sp, textSpace{"type-envs", e2.Count(), func(i int) string { return e2.At(i).String() }})
+	// nesting / length families: every depth 0..maxDepth of 14 shapes whose parse stack grows with the depth
+	maxDepth := 140
+	if c.Thorough() {
+		maxDepth = 300
+	}
+	rep := strings.Repeat
+	shapes := []func(n int) string{
+		func(n int) string { return "prc[a] : 1 = " + rep("(", n) + "f()" + rep(")", n) },
+		func(n int) string { return "prc[a] : 1 = " + rep("(", n) + "close self" + rep(")", n) },
+		func(n int) string { return "type A = " + rep("(", n) + "1" + rep(")", n) },
+		func(n int) string { return "type A = " + rep("1 * ", n) + "1" },
+		func(n int) string { return "type A = " + rep("1 -* ", n) + "B" },
+		func(n int) string { return "type A = " + rep("lin /\\ lin ", n) + "1" },
+		func(n int) string { return "prc[a] : 1 = " + rep("x <- new f(); wait x; ", n) + "f()" },
+		func(n int) string { return "prc[a] : 1 = " + rep("print l; ", n) + "close self" },
+		func(n int) string { return "prc[a] : 1 = " + rep("case y (l<y> => ", n) + "case y ()" + rep(")", n) },
+		func(n int) string { return "let f(" + rep("x : 1, ", n) + "y : 1) : 1 = f()" },
+		func(n int) string { return "type A = +{" + rep("l : 1, ", n) + "r : 1}" },
+		func(n int) string { return rep("type A = 1\n", n) + "exec f()" },
+		func(n int) string { return rep("let f() : 1 = g()\n", n+1) },
+		func(n int) string { return "prc[a] : 1 = g(" + rep("x, ", n) + "self)" },
+	}
+	sp = append(sp, textSpace{"nesting", len(shapes) * (maxDepth + 1), func(i int) string { return shapes[i%len(shapes)](i / len(shapes)) }})
 	// comment space: two declarations with comment skeletons between and after them
 	cAlpha := []string{"/*", "*/", "*", "/", "x", "//", "\n"}
 	var between, after []string
@@ -262,7 +293,7 @@ func quote(s string) string { return fmt.Sprintf("%q", s) }
 var illegalInsert = []string{"@", "#", "$", "~", "?", "é", "\x00", "`", "\""}
 
 func init() {
-	textRule := "all character strings of length <= 3 (quick) / <= 4 (thorough) over 31 scanner character-class representatives (letters, digits, _, ', space, newline, every punctuation the scanner knows, /, \\, an illegal ASCII character, a non-ASCII rune, the byte 0), all strings of length 4 / 5 over a 16-character sub-alphabet that exercises the multi-character tokens and comments, all token strings of length <= 3 / <= 4 over 57 lexemes (one per terminal, synonyms included), for every corpus/example file every prefix, every single-character deletion and every insertion of 16 legal/illegal fragments at every token boundary, and two-declaration programs with every comment skeleton of <= 3 pieces (space-separated and adjacent) over {/*, */, *, /, x, //, newline} between the declarations and of <= 2 pieces after them"
+	textRule := "all character strings of length <= 3 (quick) / <= 4 (thorough) over 31 scanner character-class representatives (letters, digits, _, ', space, newline, every punctuation the scanner knows, /, \\, an illegal ASCII character, a non-ASCII rune, the byte 0), all strings of length 4 / 5 over a 16-character sub-alphabet that exercises the multi-character tokens and comments, all token strings of length <= 3 / <= 4 over 57 lexemes (one per terminal, synonyms included), for every corpus/example file every prefix, every single-character deletion and every insertion of 16 legal/illegal fragments at every token boundary, all 4096 alias/recursion/mode graphs of three type definitions and all pairs of type definitions with depth-1 bodies as texts, 14 nesting/length families (brackets, right-nested types and terms, parameter/branch/argument lists, many declarations) at every depth 0..140 (quick) / 0..300 (thorough), and two-declaration programs with every comment skeleton of <= 3 pieces (space-separated and adjacent) over {/*, */, *, /, x, //, newline} between the declarations and of <= 2 pieces after them"
 	harness.Register(&harness.Check{
 		ID: "C11", Level: "exploration",
 		Rule:        textRule + "; each text is parsed by the real (fuel-instrumented) parser under the scheduler: it must return (not panic, not block on the error channel), within a fuel bound linear in len(text), with a program or a non-empty error; distinct_nontrivial = distinct texts with at least 2 characters",
